@@ -2,101 +2,118 @@ import TinkVerif.Gen.SliceFacts
 /-!
 # C19 — regenerated slice facts
 
-`Gen/SliceFacts.lean` is regenerated on every run from all non-test packages of /repo: for every
-function, each place where a `[]byte` parameter (or a local re-slice of it) is appended to, stored
-into, passed as the destination of a stdlib writer, stored into a struct without `Clone`
-(retention), or returned; and each method returning a `[]byte` field of its receiver as is.
-Taint follows the slice-preserving operations: slicing (incl. `p[:n:n]`), `bytes.Trim*/TrimLeft/TrimRight/
+`Gen/SliceFacts.lean` is regenerated on every run from all non-test packages of /repo. The extractor computes,
+by a fixpoint over the call graph of the whole module, a summary of every function: what happens to the memory
+behind each `[]byte` parameter (by position), behind `[]byte` fields of struct / options parameters and of the
+receiver — written within its length, appended to, used as the destination of a stdlib writer, kept by an
+object that outlives the call (retention), handed to a container (escape), returned as (part of) the result —
+and whether a result aliases library-internal memory (a pooled / package-level / receiver-held buffer).
+Summaries of helpers are applied at their call sites; a fact is the summary of an ENTRY POINT: an exported
+function, a method with an exported (or interface) name, or a function whose value is used. A helper that
+appends to its `dst` parameter matters only if some entry point passes memory derived from ITS OWN parameter
+there; a fresh `make` / `append([]byte{}, …)` / `Clone` / `Concat` buffer is nobody's memory. So the fact set does
+not depend on how the code is cut into helpers, nor (canonical naming: positions `#i`, `recv`, field / type /
+package-level names) on the names of parameters and locals; `info` carries those names and the helper chain for
+the reader and is not compared.
+
+Taint follows slicing (incl. `p[:n:n]`), conversions between byte-slice types, `bytes.Trim*/TrimLeft/TrimRight/
 TrimPrefix/TrimSuffix/TrimSpace/TrimFunc`, `bytes.Fields/Split*/Cut*` (and ranging over / indexing their
 results), `slices.Clip/Grow`, `bytes.NewBuffer(p)` / `bytes.NewReader(p)` (holders; a `Write` on the buffer is
 an append into `p`), `append(p[:k], …)` (a view when the result fits; `append(p[:0:0], …)` and
-`append(p[:n:n], …)` are copies), handing a (pointer to a) parameter slice to `Store/Swap/Put` of a container.
-`return-internal`: a function returns `x.Bytes()` of a `bytes.Buffer`, or a (re)slice of a buffer / array /
-`*[]byte`, that was obtained from a package-level variable (`pool.Get()`, a global) or is a receiver field —
-the caller's result then shares memory with something the library keeps and will write again.
-The current tree has no `return-internal` fact and no parameter reaching a struct through a trimming function.
+`append(p[:n:n], …)` are copies), composite literals and field stores (the object then holds the memory: it
+counts as retained when the object is returned, stored into something that outlives the call, or passed to a
+callee that keeps it / cannot be seen), `Store/Swap/Put` of a container.
+Pointers to generated proto messages count as the caller's memory too (`#i*`: they carry the caller's bytes; the
+generated getters `x.GetF()` are field reads): an entry point that keeps such a message gets `retain-param … =#i*`.
+`return-internal`: an entry point returns `x.Bytes()` of a `bytes.Buffer`, or a (re)slice of a buffer / array /
+`*[]byte`, that was obtained from a package-level variable (`pool.Get()`, a global) or is held by the receiver.
 
-Each fact on the current tree is classified below, by hand, into `allowed` with a reason.  The theorem
-says the regenerated fact set is within that classification; a new `append(data, 0)`, an accessor
-returning its field, or a constructor keeping the caller's slice adds a fact and the obligation
-fails (the report `Reports/C19.lean` then names the fact).
+Each fact on the current tree is classified below, by hand, with a reason. The theorem says the regenerated
+fact set is within that classification; a new `append(data, 0)` reachable from an entry point with the caller's
+slice, an accessor returning its field, or a constructor keeping the caller's slice adds a fact and the
+obligation fails (the report `Reports/C19.lean` then names the fact). An allowance that no longer has a fact is
+reported as a NOTE and fails nothing. The current tree has no `return-internal`, `return-field`,
+`append-to-param`, `store-to-param` or `escape-param` fact at all.
 -/
 namespace TinkVerif.Gen.SliceFacts
 
 inductive Why
   | dstContract      -- explicit destination-buffer parameter of an internal API (callers pass their own buffers)
   | ioReader         -- `io.Reader.Read(p)` writes `p` by contract
-  | internalScratch  -- unexported helper working on a buffer the calling method allocated
-  | inputView        -- internal function returning (a sub-slice of) its input to its internal caller, which does not hand it out
-  | protoMarshalled  -- stored into a proto message that is marshalled / parsed before the function returns
-  | perCall          -- stored into an object that lives only for the duration of the call
+  | inputView        -- function of a Go-internal package returning (a sub-slice of) its input to its internal callers; a caller
+                     -- that keeps or hands out the view gets a fact of its own (summaries are applied across packages)
+  | protoMarshalled  -- stored into a proto message that is parsed into a key / parameters object (which copies) before the function returns
   | internalOwned    -- constructor of a Go-internal package whose (public) callers pass library-owned copies; the public
                      -- entry points are exercised by the guard-region harness
+  | callerObject     -- the parameter is a POINTER to a proto message (`#i*`): the caller hands over an object, not a byte slice
+                     -- (aead.NewKMSEnvelopeAEAD2 / …WithContext keep the caller's *KeyTemplate); observation, see the report
+  | writerSink       -- keyset.MemReaderWriter is the caller's own sink: Write stores the keyset the library hands to it
   deriving DecidableEq, Repr
 
-def allowed : List (Fact × Why) := [
-  (⟨"aead", "parseEnvelope", "return-param", "ciphertext"⟩, .inputView),
-  (⟨"daead/subtle", "AESSIV.ctrCrypt", "write-into-param", "XORKeyStream:out"⟩, .internalScratch),
-  (⟨"daead/subtle", "multiplyByX", "store-to-param", "block"⟩, .internalScratch),
-  (⟨"hybrid", "createECIESAEADHKDFKeyTemplate", "retain-param", "eciespb.EciesHkdfKemParams{HkdfSalt}=salt"⟩, .protoMarshalled),
-  (⟨"hybrid/internal/hpke", "createContext", "retain-param", "context{encapsulatedKey}=encapsulatedKey"⟩, .perCall),
-  (⟨"internal/aead", "AESCTR.Decrypt", "return-param", "dst"⟩, .dstContract),
-  (⟨"internal/aead", "AESCTR.Decrypt", "write-into-param", "XORKeyStream:dst"⟩, .dstContract),
-  (⟨"internal/aead", "AESCTR.Encrypt", "return-param", "dst"⟩, .dstContract),
-  (⟨"internal/aead", "AESCTR.Encrypt", "write-into-param", "XORKeyStream:dst"⟩, .dstContract),
-  (⟨"internal/aead", "AESGCMSIV.Encrypt", "return-param", "dst"⟩, .dstContract),
-  (⟨"internal/aead", "AESGCMSIV.computeTag", "store-to-param", "polyval"⟩, .internalScratch),
-  (⟨"internal/aead", "AESGCMSIV.computeTag", "write-into-param", "XORBytes:polyval"⟩, .internalScratch),
-  (⟨"internal/aead", "aesCTR", "write-into-param", "XORBytes:out"⟩, .internalScratch),
-  (⟨"internal/ec", "BigIntBytesToFixedSizeBuffer", "return-param", "bigIntBytes"⟩, .inputView),
-  (⟨"internal/legacykeymanager", "KeyManager.NewKeyData", "retain-param", "tinkpb.KeyTemplate{Value}=serializedKeyFormat"⟩, .protoMarshalled),
-  (⟨"internal/legacykeymanager", "KeyManager.Primitive", "retain-param", "tinkpb.KeyData{Value}=serializedKey"⟩, .protoMarshalled),
-  (⟨"internal/legacykeymanager", "PrivateKeyManager.PublicKeyData", "retain-param", "tinkpb.KeyData{Value}=serializedPrivKey"⟩, .protoMarshalled),
-  (⟨"internal/mac/aescmac", "mulByX", "store-to-param", "block"⟩, .internalScratch),
-  (⟨"internal/random", "MustRand", "write-into-param", "Read:b"⟩, .dstContract),
-  (⟨"internal/signature", "AdjustEncodingLengths", "return-param", "crt"⟩, .inputView),
-  (⟨"internal/signature", "AdjustEncodingLengths", "return-param", "d"⟩, .inputView),
-  (⟨"internal/signature", "AdjustEncodingLengths", "return-param", "dp"⟩, .inputView),
-  (⟨"internal/signature", "AdjustEncodingLengths", "return-param", "dq"⟩, .inputView),
-  (⟨"internal/signature", "Pad", "return-param", "toPad"⟩, .inputView),
-  (⟨"internal/signature/slhdsa", "params.chain", "return-param", "x"⟩, .inputView),
-  (⟨"hybrid/internal/hpke", "NewEncrypt", "retain-param", "Encrypt{#0}=recipientPubKeyBytes"⟩, .internalOwned),
-  (⟨"internal/signature/slhdsa", "params.DecodePublicKey", "retain-param", "PublicKey{#0}=pkEnc"⟩, .internalOwned),
-  (⟨"internal/signature/slhdsa", "params.DecodePublicKey", "retain-param", "PublicKey{#1}=pkEnc"⟩, .internalOwned),
-  (⟨"internal/signature/slhdsa", "params.DecodeSecretKey", "retain-param", "SecretKey{#0}=skEnc"⟩, .internalOwned),
-  (⟨"internal/signature/slhdsa", "params.DecodeSecretKey", "retain-param", "SecretKey{#1}=skEnc"⟩, .internalOwned),
-  (⟨"internal/signature/slhdsa", "params.DecodeSecretKey", "retain-param", "SecretKey{#2}=skEnc"⟩, .internalOwned),
-  (⟨"internal/signature/slhdsa", "params.DecodeSecretKey", "retain-param", "SecretKey{#3}=skEnc"⟩, .internalOwned),
-  (⟨"internal/signature/slhdsa", "params.slhKeygenInternal", "retain-param", "PublicKey{#0}=pkSeed"⟩, .internalOwned),
-  (⟨"internal/signature/slhdsa", "params.slhKeygenInternal", "retain-param", "SecretKey{#0}=skSeed"⟩, .internalOwned),
-  (⟨"internal/signature/slhdsa", "params.slhKeygenInternal", "retain-param", "SecretKey{#1}=skPrf"⟩, .internalOwned),
-  (⟨"internal/signature/slhdsa", "params.slhKeygenInternal", "retain-param", "SecretKey{#2}=pkSeed"⟩, .internalOwned),
-  (⟨"keyderivation/internal/streamingprf", "NewHKDFStreamingPRF", "retain-param", "HKDFStreamingPRF{key}=key"⟩, .internalOwned),
-  (⟨"keyderivation/internal/streamingprf", "NewHKDFStreamingPRF", "retain-param", "HKDFStreamingPRF{salt}=salt"⟩, .internalOwned),
-  (⟨"keyderivation/prfbasedkeyderivation", "keyManager.NewKeyData", "retain-param", "tinkpb.KeyTemplate{Value}=serializedKeyFormat"⟩, .protoMarshalled),
-  (⟨"mac", "fullMACAdapter.data", "return-param", "data"⟩, .inputView),
-  (⟨"mac/aescmac", "fullMAC.message", "return-param", "msg"⟩, .inputView),
-  (⟨"mac/hmac", "fullMAC.message", "return-param", "msg"⟩, .inputView),
-  (⟨"prf", "createHKDFPRFKeyTemplate", "retain-param", "hkdfpb.HkdfPrfParams{Salt}=salt"⟩, .protoMarshalled),
-  (⟨"streamingaead", "decryptReader.Read", "write-into-param", "Read:p"⟩, .ioReader),
-  (⟨"streamingaead", "unreader.Read", "copy-into-param", "buf"⟩, .ioReader),
-  (⟨"streamingaead", "unreader.Read", "write-into-param", "Read:buf"⟩, .ioReader),
-  (⟨"streamingaead/subtle", "aesCTRHMACSegmentDecrypter.DecryptSegmentWithDst", "return-param", "dst"⟩, .dstContract),
-  (⟨"streamingaead/subtle", "aesCTRHMACSegmentDecrypter.DecryptSegmentWithDst", "write-into-param", "XORKeyStream:dst"⟩, .dstContract),
-  (⟨"streamingaead/subtle", "aesCTRHMACSegmentEncrypter.EncryptSegmentWithDst", "copy-into-param", "dst"⟩, .dstContract),
-  (⟨"streamingaead/subtle", "aesCTRHMACSegmentEncrypter.EncryptSegmentWithDst", "return-param", "dst"⟩, .dstContract),
-  (⟨"streamingaead/subtle", "aesCTRHMACSegmentEncrypter.EncryptSegmentWithDst", "write-into-param", "XORKeyStream:dst"⟩, .dstContract),
-  (⟨"streamingaead/subtle", "aesGCMHKDFSegmentDecrypter.DecryptSegmentWithDst", "aead-dst-param", "Open:dst"⟩, .dstContract),
-  (⟨"streamingaead/subtle", "aesGCMHKDFSegmentEncrypter.EncryptSegmentWithDst", "aead-dst-param", "Seal:dst"⟩, .dstContract),
-  (⟨"streamingaead/subtle/noncebased", "Reader.Read", "copy-into-param", "p"⟩, .ioReader)
+/-- (package, entry point, kind, canonical what) with the reason -/
+def allowed : List (String × String × String × String × Why) := [
+  ("aead", "NewKMSEnvelopeAEAD2", "retain-param", "KMSEnvelopeAEAD{dekTemplate}=#0*", .callerObject),
+  ("aead", "NewKMSEnvelopeAEADWithContext", "retain-param", "KMSEnvelopeAEADWithContext{dekTemplate}=#0*", .callerObject),
+  ("hybrid/internal/hpke", "NewEncrypt", "retain-param", "Encrypt{#0}=#0", .internalOwned),
+  ("internal/aead", "AESCTR.Decrypt", "return-param", "#0", .dstContract),
+  ("internal/aead", "AESCTR.Decrypt", "write-into-param", "XORKeyStream:#0", .dstContract),
+  ("internal/aead", "AESCTR.Encrypt", "return-param", "#0", .dstContract),
+  ("internal/aead", "AESCTR.Encrypt", "write-into-param", "Read:#0", .dstContract),
+  ("internal/aead", "AESCTR.Encrypt", "write-into-param", "XORKeyStream:#0", .dstContract),
+  ("internal/aead", "AESGCMSIV.Encrypt", "return-param", "#0", .dstContract),
+  ("internal/aead", "AESGCMSIV.Encrypt", "write-into-param", "Read:#0", .dstContract),
+  ("internal/aead", "AESGCMSIV.Encrypt", "write-into-param", "XORBytes:#0", .dstContract),
+  ("internal/ec", "BigIntBytesToFixedSizeBuffer", "return-param", "#0", .inputView),
+  ("internal/legacykeymanager", "KeyManager.NewKey", "retain-param", "tinkpb.KeyTemplate{Value}=#0", .protoMarshalled),
+  ("internal/legacykeymanager", "KeyManager.NewKeyData", "retain-param", "tinkpb.KeyTemplate{Value}=#0", .protoMarshalled),
+  ("internal/legacykeymanager", "KeyManager.Primitive", "retain-param", "tinkpb.KeyData{Value}=#0", .protoMarshalled),
+  ("internal/legacykeymanager", "PrivateKeyManager.PublicKeyData", "retain-param", "tinkpb.KeyData{Value}=#0", .protoMarshalled),
+  ("internal/protoserialization", "NewKeySerialization", "retain-param", "KeySerialization{keyData}=#0*", .internalOwned),
+  ("internal/random", "MustRand", "write-into-param", "Read:#0", .dstContract),
+  ("internal/signature", "AdjustEncodingLengths", "return-param", "#3", .inputView),
+  ("internal/signature", "AdjustEncodingLengths", "return-param", "#4", .inputView),
+  ("internal/signature", "AdjustEncodingLengths", "return-param", "#5", .inputView),
+  ("internal/signature", "AdjustEncodingLengths", "return-param", "#6", .inputView),
+  ("internal/signature", "Pad", "return-param", "#0", .inputView),
+  ("internal/signature/slhdsa", "params.DecodePublicKey", "retain-param", "PublicKey{#0}=#0", .internalOwned),
+  ("internal/signature/slhdsa", "params.DecodePublicKey", "retain-param", "PublicKey{#1}=#0", .internalOwned),
+  ("internal/signature/slhdsa", "params.DecodeSecretKey", "retain-param", "SecretKey{#0}=#0", .internalOwned),
+  ("internal/signature/slhdsa", "params.DecodeSecretKey", "retain-param", "SecretKey{#1}=#0", .internalOwned),
+  ("internal/signature/slhdsa", "params.DecodeSecretKey", "retain-param", "SecretKey{#2}=#0", .internalOwned),
+  ("internal/signature/slhdsa", "params.DecodeSecretKey", "retain-param", "SecretKey{#3}=#0", .internalOwned),
+  ("keyderivation/internal/streamingprf", "NewHKDFStreamingPRF", "retain-param", "HKDFStreamingPRF{key}=#1", .internalOwned),
+  ("keyderivation/internal/streamingprf", "NewHKDFStreamingPRF", "retain-param", "HKDFStreamingPRF{salt}=#2", .internalOwned),
+  ("keyderivation/prfbasedkeyderivation", "keyManager.NewKey", "retain-param", "tinkpb.KeyTemplate{Value}=#0", .protoMarshalled),
+  ("keyderivation/prfbasedkeyderivation", "keyManager.NewKeyData", "retain-param", "tinkpb.KeyTemplate{Value}=#0", .protoMarshalled),
+  ("keyset", "MemReaderWriter.Write", "retain-param", "MemReaderWriter.Keyset=#0*", .writerSink),
+  ("keyset", "MemReaderWriter.WriteEncrypted", "retain-param", "MemReaderWriter.EncryptedKeyset=#0*", .writerSink),
+  ("streamingaead", "decryptReader.Read", "write-into-param", "Read:#0", .ioReader),
+  ("streamingaead", "unreader.Read", "copy-into-param", "#0", .ioReader),
+  ("streamingaead", "unreader.Read", "write-into-param", "Read:#0", .ioReader),
+  ("streamingaead/subtle", "aesCTRHMACSegmentDecrypter.DecryptSegmentWithDst", "return-param", "#0", .dstContract),
+  ("streamingaead/subtle", "aesCTRHMACSegmentDecrypter.DecryptSegmentWithDst", "write-into-param", "XORKeyStream:#0", .dstContract),
+  ("streamingaead/subtle", "aesCTRHMACSegmentEncrypter.EncryptSegmentWithDst", "copy-into-param", "#0", .dstContract),
+  ("streamingaead/subtle", "aesCTRHMACSegmentEncrypter.EncryptSegmentWithDst", "return-param", "#0", .dstContract),
+  ("streamingaead/subtle", "aesCTRHMACSegmentEncrypter.EncryptSegmentWithDst", "write-into-param", "XORKeyStream:#0", .dstContract),
+  ("streamingaead/subtle", "aesGCMHKDFSegmentDecrypter.DecryptSegmentWithDst", "aead-dst-param", "Open:#0", .dstContract),
+  ("streamingaead/subtle", "aesGCMHKDFSegmentEncrypter.EncryptSegmentWithDst", "aead-dst-param", "Seal:#0", .dstContract),
+  ("streamingaead/subtle/noncebased", "Reader.Read", "copy-into-param", "#0", .ioReader)
 ]
 
 /-- genuine defects present in the tree that are recorded in /verif/known_findings.json rather than
-    repaired (kept in step with that file; empty when everything found has been fixed) -/
-def recordedDefects : List Fact := []
+    repaired (kept in step with that file; empty when everything found has been fixed): (pkg, fn, kind, what) -/
+def recordedDefects : List (String × String × String × String) := []
 
-def classified (f : Fact) : Bool := allowed.any (fun p => p.1 == f) || recordedDefects.contains f
+def key (f : Fact) : String × String × String × String := (f.pkg, f.fn, f.kind, f.what)
+
+def classified (f : Fact) : Bool :=
+  allowed.any (fun (pkg, fn, kind, what, _) => pkg == f.pkg && fn == f.fn && kind == f.kind && what == f.what)
+    || recordedDefects.contains (key f)
 
 def unexpected : List Fact := facts.filter fun f => !classified f
+
+/-- allowances without a fact (informational) -/
+def staleAllowances : List (String × String × String × String × Why) :=
+  allowed.filter fun (pkg, fn, kind, what, _) => !facts.any fun f => pkg == f.pkg && fn == f.fn && kind == f.kind && what == f.what
 
 end TinkVerif.Gen.SliceFacts
